@@ -147,7 +147,7 @@ def certViewOfJson (j : Json) : P CertView := do
     subjectCNs := ← cns.toList.mapM (·.getStr?)
     extsOk := ← boolField j "exts_ok"
     san := ← optField sanOfJson j "san"
-    ekuFirst := ← optField (·.getStr?) j "eku_first"
+    eku := ← optField (fun v => do (← v.getArr?).toList.mapM (·.getStr?)) j "eku"
     bcCa := ← optField (·.getBool?) j "bc_ca"
     appleNonce := ← optField bytesOfJson j "apple_nonce"
     keyDesc := ← optField bytesOfJson j "key_desc"
@@ -163,6 +163,10 @@ def keyDescViewOfJson (j : Json) : P KeyDescView := do
     teeOrigin := ← optField intOfJson j "tee_origin"
     teePurpose := ← optField (fun v => do (← v.getArr?).toList.mapM intOfJson) j "tee_purpose" }
 
+def rootToJson : Root → Json
+  | .pem b => Json.mkObj [("pem", bytesToJson b)]
+  | .builtin n => Json.mkObj [("builtin", Json.str n)]
+
 def queryToJson : Query → Json
   | .hash a b => Json.mkObj [("q", "hash"), ("alg", hashAlgName a), ("b", bytesToJson b)]
   | .jsonLoadsBytes b => Json.mkObj [("q", "json_loads_bytes"), ("b", bytesToJson b)]
@@ -173,10 +177,11 @@ def queryToJson : Query → Json
       ("scheme", schemeToJson s), ("sig", bytesToJson sig), ("data", bytesToJson data)]
   | .x509Load der => Json.mkObj [("q", "x509_load"), ("der", bytesToJson der)]
   | .chainVerify l i r => Json.mkObj [("q", "chain_verify"), ("leaf", bytesToJson l),
-      ("inter", Json.arr (i.map bytesToJson).toArray), ("roots", Json.arr (r.map bytesToJson).toArray)]
+      ("inter", Json.arr (i.map bytesToJson).toArray), ("roots", Json.arr (r.map rootToJson).toArray)]
   | .keyDescription der => Json.mkObj [("q", "key_description"), ("der", bytesToJson der)]
   | .nowSeconds => Json.mkObj [("q", "now_seconds")]
   | .tokenBytes k n => Json.mkObj [("q", "token_bytes"), ("k", Json.num k), ("n", Json.num n)]
+  | .builtinPem n => Json.mkObj [("q", "builtin_pem"), ("name", Json.str n)]
 
 def jsonOutcomeOfJson (j : Json) : P JsonOutcome := do
   match fieldOpt j "ok" with
@@ -209,6 +214,7 @@ def answerOfJson : (q : Query) → Json → P (Answer q)
   | .keyDescription _, j => optField keyDescViewOfJson j "view"
   | .nowSeconds, j => intField j "t"
   | .tokenBytes _ _, j => bytesField j "b"
+  | .builtinPem _, j => bytesField j "b"
 
 def errToJson (e : Err) : Json :=
   match e.kind with
